@@ -34,11 +34,11 @@ type C10Desc struct {
 }
 
 type C10Signal struct {
-	T     int64     `json:"t"`                // simulated time of the splice point (ticks from run start)
-	NoPTS bool      `json:"no_pts,omitempty"` // splice_null: the signal carries no time
+	T     int64 `json:"t"`                // simulated time of the splice point (ticks from run start)
+	NoPTS bool  `json:"no_pts,omitempty"` // splice_null: the signal carries no time
 	// Shift: the command's pts_time lies Shift ticks before the signal time and pts_adjustment
 	// makes up for it (a re-stamped signal); the signal time is the same
-	Shift int64 `json:"shift,omitempty"`
+	Shift int64     `json:"shift,omitempty"`
 	Descs []C10Desc `json:"descs"`
 }
 
